@@ -201,10 +201,10 @@ class GarbageCollector:
             basename = norm_marker.rsplit("/", 1)[-1]
             if not basename.endswith(".inflight"):
                 continue
-            data_rel = self._marker_target(norm_marker, basename)
+            targets = self._marker_targets(norm_marker, basename)
 
             if age_ok:
-                protected.add(data_rel)
+                protected.update(targets)
             else:
                 logger.warning(
                     f"Removing abandoned in-flight marker {norm_marker} "
@@ -215,19 +215,24 @@ class GarbageCollector:
                 except Exception as e:
                     logger.warning(f"Failed to delete stale marker {norm_marker}: {e}")
                     # Could not remove the marker -> keep protecting its file
-                    protected.add(data_rel)
+                    protected.update(targets)
 
         return protected
 
-    def _marker_target(self, marker_path: str, basename: str) -> str:
-        """Resolve which file a marker protects.
+    def _marker_targets(self, marker_path: str, basename: str) -> Set[str]:
+        """Resolve which file(s) a marker protects.
 
         The marker's payload names the protected path explicitly (it may be a
-        data file, a manifest, or a manifest list). Markers written by older
-        versions carry no payload; for those the historical convention -
-        "<data file basename>.inflight" under data/ - is assumed.
+        data file, a manifest, or a manifest list). When the payload cannot be
+        used - markers written by older versions carry none, and a marker may be
+        unreadable or damaged - only the marker's NAME is known, and the name is
+        "<basename of the protected file>.inflight" for a data file under data/
+        as well as for a manifest / manifest list under metadata/manifests/.
+        Every path the name can denote is protected: guessing "data/" alone left
+        the manifests of a commit in progress unprotected (fail closed).
         """
-        fallback = f"data/{basename[: -len('.inflight')]}"
+        name = basename[: -len('.inflight')]
+        fallback = {f"data/{name}", f"metadata/manifests/{name}"}
         try:
             payload = json.loads(self.storage.read_file(marker_path).decode("utf-8"))
             target = payload.get("file_path")
@@ -235,7 +240,7 @@ class GarbageCollector:
             return fallback
         if not isinstance(target, str) or not target:
             return fallback
-        return self._normalize_path(target)
+        return {self._normalize_path(target)}
 
     def _gc_prefix(self, prefix: str, reachable_set: Set[str], grace_period_ms: int) -> int:
         """Garbage collect files in a specific prefix."""
